@@ -289,6 +289,20 @@ func (env *AbsEnv) EvalCond(e ast.Expr) (condVal, bool) {
 					}
 				}
 			}
+			// the classified string compared with "": a statement about its length
+			if x.Op == token.EQL || x.Op == token.NEQ {
+				for _, pr := range [][2]ast.Expr{{x.X, x.Y}, {x.Y, x.X}} {
+					if env.IsVar(pr[0]) == "str" {
+						if sv, isS := ConstString(env.Info, pr[1]); isS && sv == "" {
+							set := IvSet{{0, 0}}
+							if x.Op == token.NEQ {
+								set = IvSet{{1, ivInf}}
+							}
+							return condVal{Var: "len", Set: set}, true
+						}
+					}
+				}
+			}
 			lv, lIsVar, lc, lIsC := env.operand(x.X)
 			rv, rIsVar, rc, rIsC := env.operand(x.Y)
 			switch {
@@ -369,7 +383,114 @@ func (env *AbsEnv) operand(e ast.Expr) (v string, isVar bool, c int64, isConst b
 			return env.operand(call.Args[0])
 		}
 	}
+	// an integer helper applied to concrete arguments: maxLen(kind)
+	if call, ok := e.(*ast.CallExpr); ok && env.Funcs != nil && env.depth <= 3 {
+		if f := env.Funcs(Callee(env.Info, call)); f != nil {
+			var args []int64
+			allC := true
+			for _, a := range call.Args {
+				_, _, ac, aIsC := env.operand(a)
+				if !aIsC {
+					allC = false
+				}
+				args = append(args, ac)
+			}
+			if allC {
+				if v, ok := evalIntFunc(f, args, env); ok {
+					return "", false, v, true
+				}
+			}
+		}
+	}
 	return "", false, 0, false
+}
+
+// evalIntFunc evaluates `func(p…) int` whose body is a sequence of `if <cond on constants> { return C }`
+// (or a tagged switch over a parameter with constant returns) followed by `return D`, for concrete arguments.
+func evalIntFunc(f *Func, args []int64, outer *AbsEnv) (int64, bool) {
+	info := f.Info()
+	env := &AbsEnv{Info: info, Consts: map[types.Object]int64{}, Funcs: outer.Funcs, depth: outer.depth + 1, IsVar: func(ast.Expr) string { return "" }}
+	i := 0
+	for _, fl := range f.Type.Params.List {
+		for _, n := range fl.Names {
+			if i < len(args) {
+				env.Consts[info.Defs[n]] = args[i]
+			}
+			i++
+		}
+	}
+	if i != len(args) {
+		return 0, false
+	}
+	var run func(stmts []ast.Stmt) (int64, bool, bool) // value, returned, ok
+	run = func(stmts []ast.Stmt) (int64, bool, bool) {
+		for _, st := range stmts {
+			switch x := st.(type) {
+			case *ast.ReturnStmt:
+				if len(x.Results) != 1 {
+					return 0, false, false
+				}
+				_, _, c, isC := env.operand(x.Results[0])
+				return c, true, isC
+			case *ast.IfStmt:
+				if x.Init != nil {
+					return 0, false, false
+				}
+				cv, ok := env.EvalCond(x.Cond)
+				if !ok || !cv.Known {
+					return 0, false, false
+				}
+				if cv.Val {
+					if v, ret, ok := run(x.Body.List); ret || !ok {
+						return v, ret, ok
+					}
+				} else if blk, isB := x.Else.(*ast.BlockStmt); isB {
+					if v, ret, ok := run(blk.List); ret || !ok {
+						return v, ret, ok
+					}
+				} else if x.Else != nil {
+					return 0, false, false
+				}
+			case *ast.SwitchStmt:
+				if x.Init != nil || x.Tag == nil {
+					return 0, false, false
+				}
+				_, _, tv, tIsC := env.operand(x.Tag)
+				if !tIsC {
+					return 0, false, false
+				}
+				var chosen, deflt *ast.CaseClause
+				for _, cl := range x.Body.List {
+					cc := cl.(*ast.CaseClause)
+					if cc.List == nil {
+						deflt = cc
+					}
+					for _, ce := range cc.List {
+						_, _, cv, cIsC := env.operand(ce)
+						if !cIsC {
+							return 0, false, false
+						}
+						if cv == tv && chosen == nil {
+							chosen = cc
+						}
+					}
+				}
+				if chosen == nil {
+					chosen = deflt
+				}
+				if chosen != nil {
+					if v, ret, ok := run(chosen.Body); ret || !ok {
+						return v, ret, ok
+					}
+				}
+			default:
+				return 0, false, false
+			}
+		}
+		return 0, false, true
+	}
+	v, ret, ok := run(f.Body.List)
+	return v, ret && ok
 }
 
 // ClassResult is the verdict of one classifier run (one kind, one position class).
@@ -408,11 +529,26 @@ func RunClassifier(f *Func, env *AbsEnv, domain IvSet) ClassResult {
 		return res
 	}
 	info := f.Info()
+	byteAlias := map[types.Object]bool{} // locals holding s[i]
+	firstByte := false                   // s[0] denotes the byte while a first-position statement outside the loop is evaluated
 	env.IsVar = func(e ast.Expr) string {
 		e = ast.Unparen(e)
+		if id, ok := e.(*ast.Ident); ok {
+			if o := info.Uses[id]; o != nil {
+				if byteAlias[o] {
+					return "byte"
+				}
+				if o == strParam {
+					return "str"
+				}
+			}
+		}
 		if ix, ok := e.(*ast.IndexExpr); ok {
 			if id, ok := ast.Unparen(ix.X).(*ast.Ident); ok && info.Uses[id] == strParam {
 				if iid, ok := ast.Unparen(ix.Index).(*ast.Ident); ok && info.Uses[iid] == env.PosVar && env.PosVar != nil {
+					return "byte"
+				}
+				if v, isC := ConstInt(info, ix.Index); isC && v == 0 && firstByte {
 					return "byte"
 				}
 			}
@@ -492,6 +628,32 @@ func RunClassifier(f *Func, env *AbsEnv, domain IvSet) ClassResult {
 				if x.Init != nil {
 					res.Undecided = "if with init"
 					return st, false
+				}
+				// a test of s[0] before the loop: `if <cond on s[0]> { return false }` speaks about the
+				// first position only
+				if !inLoop && mentionsIndex0(info, x.Cond, strParam) {
+					if x.Else != nil || len(x.Body.List) != 1 {
+						res.Undecided = "unsupported test of s[0]"
+						return st, false
+					}
+					rs, isR := x.Body.List[0].(*ast.ReturnStmt)
+					if !isR || len(rs.Results) != 1 || ExprString(rs.Results[0]) != "false" {
+						res.Undecided = "unsupported test of s[0]"
+						return st, false
+					}
+					if env.Pos == "first" {
+						firstByte = true
+						t, _, tA, _, ok := split(absState{bytes: domain, lens: st.lens}, x.Cond)
+						firstByte = false
+						if !ok {
+							res.Undecided = "condition outside the fragment: " + ExprString(x.Cond)
+							return st, false
+						}
+						if tA {
+							res.ByteReject = res.ByteReject.Union(t.bytes)
+						}
+					}
+					continue
 				}
 				t, f, tA, fA, ok := split(st, x.Cond)
 				if !ok {
@@ -593,6 +755,11 @@ func RunClassifier(f *Func, env *AbsEnv, domain IvSet) ClassResult {
 						if o == nil {
 							o = info.Uses[id]
 						}
+						// c := s[i]
+						if inLoop && o != nil && x.Tok == token.DEFINE && env.IsVar(x.Rhs[0]) == "byte" {
+							byteAlias[o] = true
+							continue
+						}
 						if v, isC := ConstInt(info, x.Rhs[0]); isC && o != nil {
 							env.Consts[o] = v
 							continue
@@ -601,6 +768,36 @@ func RunClassifier(f *Func, env *AbsEnv, domain IvSet) ClassResult {
 				}
 				res.Undecided = "unsupported assignment"
 				return st, false
+			case *ast.ForStmt:
+				// for i := C; i < len(s); i++ with C = 0 (every position) or 1 (every position but the first)
+				start, iv, okF := int64(-1), types.Object(nil), false
+				if as, isA := x.Init.(*ast.AssignStmt); isA && as.Tok == token.DEFINE && len(as.Lhs) == 1 && len(as.Rhs) == 1 && !inLoop {
+					if id, isId := as.Lhs[0].(*ast.Ident); isId {
+						if v, isC := ConstInt(info, as.Rhs[0]); isC && (v == 0 || v == 1) {
+							start, iv = v, info.Defs[id]
+						}
+					}
+				}
+				if iv != nil {
+					if be, isB := ast.Unparen(x.Cond).(*ast.BinaryExpr); isB && be.Op == token.LSS {
+						if id, isId := ast.Unparen(be.X).(*ast.Ident); isId && info.Uses[id] == iv && env.IsVar(be.Y) == "len" {
+							if inc, isI := x.Post.(*ast.IncDecStmt); isI && inc.Tok == token.INC {
+								if id2, isId2 := ast.Unparen(inc.X).(*ast.Ident); isId2 && info.Uses[id2] == iv {
+									okF = true
+								}
+							}
+						}
+					}
+				}
+				if !okF {
+					res.Undecided = "unsupported loop"
+					return st, false
+				}
+				if start == 0 || env.Pos != "first" {
+					env.PosVar = iv
+					run(x.Body.List, absState{bytes: domain, lens: st.lens}, true)
+					env.PosVar = nil
+				}
 			case *ast.RangeStmt:
 				id, ok := x.Key.(*ast.Ident)
 				sid, ok2 := ast.Unparen(x.X).(*ast.Ident)
@@ -742,4 +939,21 @@ func (env *AbsEnv) CondSet(e ast.Expr, domain IvSet) (IvSet, bool) {
 		return nil, true
 	}
 	return v.Set.Intersect(domain), true
+}
+
+
+// mentionsIndex0: does e contain s[0] for the given string parameter?
+func mentionsIndex0(info *types.Info, e ast.Expr, strParam types.Object) bool {
+	found := false
+	ast.Inspect(e, func(n ast.Node) bool {
+		if ix, ok := n.(*ast.IndexExpr); ok {
+			if id, isId := ast.Unparen(ix.X).(*ast.Ident); isId && info.Uses[id] == strParam {
+				if v, isC := ConstInt(info, ix.Index); isC && v == 0 {
+					found = true
+				}
+			}
+		}
+		return !found
+	})
+	return found
 }
